@@ -4,7 +4,8 @@ open Driver_base
 (* C05 / C06: validation of event traces recorded from the real numberspec.go (sync redirected to the deterministic
    scheduler) against the transition system of Conc.v.
      C05 <id> <ver> Trace <srclen> <B> : <events> =>
-   events: G g | L g | U g | W g | R g | S g | B g | I g x | C g p | T g p d     (g = 0: the producer) *)
+   events: G g | L g | U g | W g | R g | S g | B g | I g x | C g index | T g index len ok     (g = 0: the producer;
+   C / T: one memoizer.wait call of a reader and its return) *)
 let k_chunks = 1000
 
 let () = reg "C05" "Trace" (fun ver args _obs ->
@@ -48,10 +49,10 @@ let () = reg "C05" "Trace" (fun ver args _obs ->
                 else if not (apply P (LIter ok) 2) then fail (Printf.sprintf "I %d" x) "source call not possible in the model state (order / count / after the end)"
        | "C" -> let p = next_int a in
                 if not (apply (who g) (LCall (nat_of_int (g - 1), nat_of_int p)) 0) then fail "C" "call while a call is pending"
-       | "T" -> let p = next_int a in let d = next_int a in
-                let len = conc_dlen !st in
-                if not (apply (who g) (LReturn (nat_of_int (g - 1), nat_of_int p, len, d <> -1)) 2)
-                then fail (Printf.sprintf "T %d %d %d" g p d) "return not possible / wrong ok flag for the published length"
+       | "T" -> let p = next_int a in let len = next_int a in let ok = next_int a in
+                if not (apply (who g) (LReturn (nat_of_int (g - 1), nat_of_int p, nat_of_int len, ok = 1)) 2)
+                then fail (Printf.sprintf "T %d %d %d %d" g p len ok)
+                       (Printf.sprintf "return not possible: the model has published %d digits / wrong ok flag / no such pending call" (int_of_nat (conc_dlen !st)))
        | _ -> fail k "unknown event")
     done
   with Exhausted | Failure _ -> fail "?" "malformed trace");
